@@ -66,6 +66,11 @@ func c06Probes() []c06Probe {
 		wr([]string{"SADD", k, "m"}, k)
 		wr([]string{"ZADD", k, "1", "m"}, k)
 		wr([]string{"APPEND", k, "x"}, k)
+		// commands whose names extend the name of a command that rule sets grant or refuse by name (get, set, mget)
+		rd([]string{"GETRANGE", k, "0", "1"}, k)
+		ps = append(ps, c06Probe{A: []string{"GETDEL", k}, R: []string{k}, W: []string{k}}) // returns the value and removes it
+		ps = append(ps, c06Probe{A: []string{"GETEX", k, "PERSIST"}, R: []string{k}, W: []string{k}})
+		wr([]string{"SETRANGE", k, "0", "x"}, k)
 	}
 	for _, pair := range [][2]string{{ok1, ok2}, {ok1, no}, {no, ok1}, {no, no}} {
 		rd([]string{"MGET", pair[0], pair[1]}, pair[0], pair[1])
@@ -235,7 +240,7 @@ func (c06Check) Run(u Unit, w *Worker) UnitResult {
 		if si%a.Shards != a.Shard {
 			continue
 		}
-		for _, mode := range []string{"authenticated", "unauthenticated", "rules-changed", "failed-login-afterwards"} {
+		for _, mode := range []string{"authenticated", "unauthenticated", "rules-changed", "failed-login-afterwards", "rules-repeated"} {
 
 			setup := []Action{cmdOn(0, "AUTH", "adminpw"),
 				cmdOn(0, "SET", "a1", "x"), cmdOn(0, "SET", "b1", "x")}
@@ -247,6 +252,10 @@ func (c06Check) Run(u Unit, w *Worker) UnitResult {
 				// is still u's and still bound by u's rules
 				setup = append(setup, cmdOn(0, append([]string{"ACL", "SETUSER", "u", "on", ">p"}, rules...)...), cmdOn(1, "AUTH", "u", "p"),
 					cmdOn(1, "AUTH", "default", "not-the-password"), cmdOn(1, "HELLO", "2", "AUTH", "default", "nope"))
+			case "rules-repeated":
+				// the same rules granted a second time to the existing user: the decision is a function of the SET of rules
+				setup = append(setup, cmdOn(0, append([]string{"ACL", "SETUSER", "u", "on", ">p"}, rules...)...), cmdOn(1, "AUTH", "u", "p"),
+					cmdOn(0, append([]string{"ACL", "SETUSER", "u"}, rules...)...))
 			case "unauthenticated":
 				setup = append(setup, cmdOn(0, append([]string{"ACL", "SETUSER", "u", "on", ">p"}, rules...)...))
 			case "rules-changed":
